@@ -241,6 +241,19 @@ let handle (fields : string list) : string =
       | _ -> failwith "bad fanchk mode") in
     if ok then "ok" else "violated"
   | ["expect"; v] | ["expect"; v; _] -> v
+  | ["provider"; first; script] | ["lives"; first; script] ->
+    let sc = List.map (fun t -> if t = "F" then ConnFail
+                                else ConnOk (nat_of_int (int_of_string (String.sub t 1 (String.length t - 1))))) (split ' ' script) in
+    let tr = provider (b01 first) sc in
+    let only_oc = (List.hd fields = "lives") in
+    String.concat " " (List.filter_map (function
+      | Attempt -> if only_oc then None else Some "A"
+      | Backoff -> if only_oc then None else Some "B"
+      | ChOpen -> Some "O"
+      | ChClose c -> Some ("C" ^ string_of_int (int_of_nat c))) tr)
+  | ["tcalls"; ops] ->
+    let os = List.map (fun t -> if t = "R" then IoRead else IoWrite) (split ' ' ops) in
+    String.concat " " (List.map (function SetReadDeadline -> "SR" | SetWriteDeadline -> "SW" | DoRead -> "R" | DoWrite -> "W") (timed_calls os))
   | ["tsmono"; ops] ->
     let ts = List.filter_map (fun op -> match split '@' op with
                                 | [_; now] -> if now = "0" then None else Some (n_of_string now)
